@@ -99,25 +99,26 @@ type Report struct {
 	Level string
 	Rule  string
 
-	start       time.Time
-	deadline    time.Time
-	evals       atomic.Int64
-	mu          sync.Mutex
-	classes     map[string]int64
-	samples     []interface{}
-	vios        map[string]*vio
-	vioOrder    []string
-	Extra       map[string]interface{}
-	Assumptions []string
-	exhaustive  bool
-	capNote     string
-	known       map[string]KnownFinding
-	knownSeen   map[string]int64
-	maxSamples  int
-	replay      *replayReq
-	MaxParallel int      // RunWorkers: at most this many worker processes at a time (0 = all at once)
-	crash       string   // worker: panic caught by Guard
-	workerFail  []string // workers that died without a report; judged in Finish after the others were merged
+	start         time.Time
+	deadline      time.Time
+	evals         atomic.Int64
+	mu            sync.Mutex
+	classes       map[string]int64
+	samples       []interface{}
+	vios          map[string]*vio
+	vioOrder      []string
+	Extra         map[string]interface{}
+	Assumptions   []string
+	exhaustive    bool
+	capNote       string
+	known         map[string]KnownFinding
+	knownSeen     map[string]int64
+	maxSamples    int
+	replay        *replayReq
+	MaxParallel   int      // RunWorkers: at most this many worker processes at a time (0 = all at once)
+	crash         string   // worker: panic caught by Guard
+	FailedWorkers []int    // indices of workers that died without a report
+	workerFail    []string // workers that died without a report; judged in Finish after the others were merged
 }
 
 // NewReport parses flags and starts a report for property id.
@@ -414,6 +415,7 @@ func (r *Report) RunWorkers(n int, extraArgs ...string) {
 				tail = tail[len(tail)-2000:]
 			}
 			r.workerFail = append(r.workerFail, fmt.Sprintf("worker %d produced no report (err=%v): %s", x.k, x.err, tail))
+			r.FailedWorkers = append(r.FailedWorkers, x.k)
 			continue
 		}
 		r.mu.Lock()
